@@ -79,8 +79,8 @@ class DictCfg:
             k.set_model(iface)
             k.identifier = f"kernel_{i:02d}"
         eng = Engine(seeds=jax.random.split(jax.random.PRNGKey(seed), N), model_states=states,
-                     kernel_sequence=KernelSequence(kernels), epoch_configs=mk_epochs([[3, T, 1]]),
-                     jitted_sample_duration=T, model=iface, position_keys=list(th0), show_progress=False)
+                     kernel_sequence=KernelSequence(kernels), epoch_configs=mk_epochs(schedule(T, getattr(self, "chunked", False))[0]),
+                     jitted_sample_duration=schedule(T, getattr(self, "chunked", False))[1], model=iface, position_keys=list(th0), show_progress=False)
         return eng, th0, data
 
     def final(self, eng, th0):
@@ -431,7 +431,12 @@ class LieselCfg:
         outcomes = lsl.Var(jnp.asarray(self.outs), name="outcomes")
         k = lsl.Var(jnp.asarray(0.0), lsl.Dist(tfd.FiniteDiscrete, outcomes=outcomes, probs=jnp.asarray(self.pr)), name="k")
         k.parameter = True
-        m = lsl.param(jnp.asarray(0.0, jnp.float32), lsl.Dist(tfd.Normal, loc=0.0, scale=1.5), name="m")
+        if self.which == "mixturehier":
+            # the prior scale of m depends on the discrete variable: p(m | k) belongs to the full conditional of k
+            msd = lsl.Var(lsl.Calc(lambda k_: 0.6 + 0.7 * k_, k), name="m_scale")
+            m = lsl.param(jnp.asarray(0.0, jnp.float32), lsl.Dist(tfd.Normal, loc=0.0, scale=msd), name="m")
+        else:
+            m = lsl.param(jnp.asarray(0.0, jnp.float32), lsl.Dist(tfd.Normal, loc=0.0, scale=1.5), name="m")
         loc = lsl.Var(lsl.Calc(lambda m, k: m + 1.5 * k, m, k), name="loc")
         y = lsl.obs(jnp.zeros(self.n, jnp.float32), lsl.Dist(tfd.Normal, loc=loc, scale=1.0), name="y")
         return lsl.GraphBuilder().add(y).build_model()
@@ -460,7 +465,7 @@ class LieselCfg:
             y = x[:, None] + 0.7 * rng.normal(size=(N, self.n))
             return {"upper_transformed": np.log(upper), "x_transformed": np.log(x / upper) - np.log1p(-x / upper)}, {"y": y}
         k = rng.choice(self.outs, size=N, p=self.pr / self.pr.sum()).astype(np.float64)
-        m = rng.normal(0, 1.5, N)
+        m = rng.normal(0, 1.5, N) if self.which != "mixturehier" else rng.normal(size=N) * (0.6 + 0.7 * k)
         y = (m + 1.5 * k)[:, None] + rng.normal(size=(N, self.n))
         return {"k": k, "m": m}, {"y": y}
 
@@ -529,8 +534,8 @@ class LieselCfg:
             k.set_model(iface)
             k.identifier = f"kernel_{i:02d}"
         eng = Engine(seeds=jax.random.split(jax.random.PRNGKey(seed), N), model_states=states,
-                     kernel_sequence=KernelSequence(kernels), epoch_configs=mk_epochs([[3, T, 1]]),
-                     jitted_sample_duration=T, model=iface, position_keys=list(th0), show_progress=False)
+                     kernel_sequence=KernelSequence(kernels), epoch_configs=mk_epochs(schedule(T, getattr(self, "chunked", False))[0]),
+                     jitted_sample_duration=schedule(T, getattr(self, "chunked", False))[1], model=iface, position_keys=list(th0), show_progress=False)
         return eng, th0, data
 
     def final(self, eng, th0):
@@ -571,6 +576,9 @@ class LieselCfg:
             return {"tau2": lambda x: sst.invgamma.cdf(x, 3.0, scale=2.0)}
         if self.which == "bounded":
             return {"upper_transformed": lambda x: sst.norm.cdf(x, 0.3, 0.4), "x_transformed": lambda x: sst.logistic.cdf(x)}
+        if self.which == "mixturehier":
+            w_ = self.pr / self.pr.sum()
+            return {"m": lambda x: sum(w_[j] * sst.norm.cdf(x, 0, 0.6 + 0.7 * self.outs[j]) for j in range(3))}
         return {"m": lambda x: sst.norm.cdf(x, 0, 1.5)}
 
     def prior_sd(self):
@@ -581,6 +589,14 @@ class LieselCfg:
         if self.which in ("smooth", "smoothrd"):
             return {"b2": 1.0, "tau2": 1.0}
         return {"m": 1.5, "k": 0.75}
+
+
+def schedule(T, chunked):
+    """One burn-in epoch run as a single jitted chunk, or (chunked, T a multiple of 5) a burn-in and a posterior epoch of
+    unequal lengths that the engine runs as five jitted chunks."""
+    if chunked and T % 5 == 0 and T >= 10:
+        return [[3, 3 * T // 5, 1], [4, 2 * T // 5, 1]], T // 5
+    return [[3, T, 1]], T
 
 
 def all_configs():
@@ -605,18 +621,20 @@ def all_configs():
         cfgs[f"nig-original-scale/{k}"] = lambda k=k: NIG(f"nig-original-scale/{k}", k)
     for k in ("disc+nuts", "rw+disc"):
         cfgs[f"liesel-mixture/{k}"] = lambda k=k: LieselCfg(f"liesel-mixture/{k}", "mixture", k)
+        cfgs[f"liesel-mixture-hier/{k}"] = lambda k=k: LieselCfg(f"liesel-mixture-hier/{k}", "mixturehier", k)
     return cfgs
 
 
 QUICK = ["liesel-bounded/nuts+rw", "nig-original-scale/gibbs+rw", "two-blocks/rw+rw", "normal-normal/rw", "normal-normal/mh_asym", "normal-normal/gibbs", "mean-logscale/rw+hmc", "mean-logscale/nuts_joint",
          "mean-logscale/iwls_joint", "logit/iwls", "pois/iwls_user", "liesel-linreg/nuts+rw", "liesel-linreg/iwls+gibbs",
-         "liesel-smooth/iwls+tau2", "liesel-smooth-rankdef/nuts+tau2", "liesel-mixture/disc+nuts"]
+         "liesel-smooth/iwls+tau2", "liesel-smooth-rankdef/nuts+tau2", "liesel-mixture/disc+nuts", "liesel-mixture-hier/rw+disc"]
 
 
 def run_case(case):
     res = CaseResult(case)
     try:
         cfg = all_configs()[case["config"]]()
+        cfg.chunked = bool(case.get("chunked"))
         rng = rng_for(case["seed"], "c04", case["config"], case["T"], case.get("stage", 1), case["draw_seed"])
         N, T = case["n"], case["T"]
         eng, th0, data = cfg.build(rng, N, T, case["draw_seed"])
@@ -646,7 +664,7 @@ def run_case(case):
         res.mon("chains_moved")
         rate = min(m[0] for m in moved)
         dist = min(m[1] for m in moved)
-        desc = {"config": case["config"], "T": T, "N": N, "move_rate_min": round(rate, 3), "mean_move_in_prior_sd_min": round(dist, 3),
+        desc = {"config": case["config"], "T": T, "N": N, "jitted_chunks": 5 if schedule(T, cfg.chunked)[1] != T else 1, "move_rate_min": round(rate, 3), "mean_move_in_prior_sd_min": round(dist, 3),
                 "min_detectable_bias_in_sd_of_paired_difference": round(vs.Z_FLAG / np.sqrt(N), 4),
                 "max_abs_z": round(float(max(abs(v) for v in st.values() if np.isfinite(v))), 2)}
         if rate > 0.05 and dist > 0.1:
@@ -670,13 +688,13 @@ def gen_cases(tier, seed):
     cases = []
     if tier == "quick":
         for i, name in enumerate(QUICK):
-            cases.append({"idx": i, "seed": seed, "config": name, "T": 20 if i % 3 else 5, "n": 8192,
+            cases.append({"idx": i, "seed": seed, "config": name, "T": 20 if i % 3 else 5, "n": 8192, "chunked": bool(i % 2),
                           "draw_seed": (seed * 1009 + i * 13 + 7) % (2 ** 30), "cost": 10})
     else:
         i = 0
         for name in all_configs():
             for T in (1, 5, 25):
-                cases.append({"idx": i, "seed": seed, "config": name, "T": T, "n": 32768,
+                cases.append({"idx": i, "seed": seed, "config": name, "T": T, "n": 32768, "chunked": bool(i % 2),
                               "draw_seed": (seed * 1009 + i * 13 + 7) % (2 ** 30), "cost": 10 * T})
                 i += 1
     return cases
